@@ -137,7 +137,21 @@ fn run_case(seed: u64, idx: u64) -> CaseOut {
                 let per_ms = 10u64.pow(rng.range(0, 9) as u32) * rng.range(1, 9); // steps per millisecond
                 let n = rng.range(1, 400) as usize;
                 let d = Drv::new(Some(u64::MAX));
-                let mut pos = 0u64;
+                // optionally start far up the u64 range (f64 cannot represent neighbouring positions
+                // there): seek to the base, forget it, then progress steadily in small steps
+                let base: u64 = match rng.below(4) {
+                    0 => (1u64 << 53) + rng.range(0, 1 << 20),
+                    1 => (1u64 << rng.range(54, 63)) + rng.range(0, 4096),
+                    _ => 0,
+                };
+                let per_ms = if base > 0 && rng.chance(2, 3) { rng.range(1, 9) } else { per_ms };
+                if base > 0 {
+                    d.advance(rng.range(1, 500) * MS);
+                    d.update(base);
+                    d.advance(rng.range(1, 500) * MS);
+                    d.pb.reset_eta();
+                }
+                let mut pos = base;
                 let mut gaps = Vec::new();
                 let cadence = rng.below(3);
                 for _ in 0..n {
@@ -155,8 +169,8 @@ fn run_case(seed: u64, idx: u64) -> CaseOut {
                     d.update(pos);
                 }
                 let truth = per_ms as f64 * 1000.0;
-                let w = J::obj().with("kind", "steady").with("steps_per_ms", per_ms).with("updates", gaps.len()).with("first_gaps_ms", gaps.iter().take(8).copied().collect::<Vec<_>>());
-                let feats = vec!["steady".to_string()];
+                let w = J::obj().with("kind", "steady").with("base_position", base).with("steps_per_ms", per_ms).with("updates", gaps.len()).with("first_gaps_ms", gaps.iter().take(8).copied().collect::<Vec<_>>());
+                let feats = vec!["steady".to_string(), if base > 0 { "position-above-2^53".to_string() } else { "small-position".to_string() }];
                 let ps = finite_nonneg(&d, "after steady progress", &feats, &w, &replay)?;
                 if rel(ps, truth) > 1e-6 && pos != u64::MAX {
                     return Err(viol("steady-rate-wrong", feats, format!("per_sec() = {ps} after {} updates at exactly {truth} steps/s", gaps.len()), w, replay.clone()));
